@@ -1147,7 +1147,7 @@ func (gs *groupState) checkCommits(admin *RawCli, live map[int]*gmember) {
 					polled := false
 					if m := gs.members[client]; m != nil {
 						for _, pr := range m.polls {
-							if pr.ret > assignSeq && pr.start < c.doneSeq {
+							if pr.ret > assignSeq && pr.ret < c.doneSeq { // returned (and so tracked) before the commit's response was handled
 								for _, r := range pr.recs {
 									if r.topic == k.t && r.part == k.p {
 										polled = true
